@@ -47,7 +47,21 @@ def _derive_bytes(spec: typing.Any, case: typing.Any, with_header: bool) -> typi
         # Such payloads may exceed the extent of the reader's revision; they are skipped, never rejected.
         plan = iter([(e % 12 if e % 3 else 0, f % 256) for e, f in case["extra"]] + [(0, 0)] * 64)
         enc = codec.encode(spec, case["value"], with_header, inflate=plan)
-        data = codec.bits_to_bytes(enc.bits)
+        bits = list(enc.bits)
+        bump = case.get("bump")
+        if bump is not None and enc.headers:
+            # on top of that one header (at any level) announces a few bytes more than were written for it: whether that is an
+            # overrun is decided against what remains of the *enclosing* payload, not against what happens to follow in the buffer
+            pos, n = enc.headers[bump % len(enc.headers)]
+            new = n + 1 + (bump // 16) % 3
+            if (bump // 8) % 2:
+                # ... by just more than what is left of the whole representation after its own payload: it overruns every enclosing
+                # payload, however much the buffer may hold after them
+                new = n + (len(bits) - (pos + 32 + 8 * n)) // 8 + 1 + (bump // 16) % 3
+            for i in range(32):
+                bits[pos + i] = (new >> i) & 1
+            kind = "inflate:bumped-header"
+        data = codec.bits_to_bytes(bits)
         cut = case.get("cut", 0)
         return (data if cut % 4 else data[: cut // 4 % (len(data) + 1)]), None, kind
     enc = codec.encode(spec, case["value"], with_header)
@@ -86,6 +100,10 @@ def check_bytes(case: typing.Any, ctx: Ctx) -> Info:
     with_header = bool(case.get("header")) and spec[0] == "delim"
     t = cc.build_type(spec)
     data, valid, kind = _derive_bytes(spec, case, with_header)
+    if case.get("tail") and kind.split(":")[0] in ("flip", "header", "inflate"):
+        # a damaged / tampered / inflated representation that is followed by further bytes in the same buffer (the next object of a
+        # stream, padding of a transport frame): what lies after the announced payload of the top-level object is nobody's data
+        data, valid, kind = data + bytes.fromhex(case["tail"]), None, kind + "+tail"
     name = layout.type_string(spec)[:300]
     detail = "type %s bytes %s" % (name, data.hex())
 
@@ -208,8 +226,34 @@ LARGE_SPECS = [
 ]
 
 
-def _cases(large: bool = False) -> st.SearchStrategy:
+def _nested_delimited_specs() -> st.SearchStrategy:
+    """Delimited inside delimited (2..3 levels), the nested object last, in the middle or in an array, with tight and slack extents."""
+    prim = st.sampled_from([["uint", 8, "sat"], ["uint", 16, "sat"], ["bool"], ["int", 5], ["var", ["uint", 8, "sat"], 2], ["var", ["byte"], 3]])
+    slack = st.sampled_from([0, 0, 0, 1, 2])
+
+    def wrap(inner: st.SearchStrategy) -> st.SearchStrategy:
+        def build(t: typing.Any) -> typing.Any:
+            nested, s_in, before, after, s_out, form = t
+            member: typing.Any = ["delim", nested, s_in]
+            if form == 1:
+                member = ["fixed", member, 2]
+            elif form == 2:
+                member = ["var", member, 2]
+            fields = [["b%d" % i, x] for i, x in enumerate(before)] + [["d", member]] + [["a%d" % i, x] for i, x in enumerate(after)]
+            return ["delim", ["struct", fields], s_out]
+
+        return st.tuples(inner, slack, st.lists(prim, max_size=2), st.lists(prim, max_size=2), slack, st.sampled_from([0, 0, 0, 1, 2])).map(build)
+
+    leaf = st.lists(prim, min_size=1, max_size=2).map(lambda fs: ["struct", [["x%d" % i, x] for i, x in enumerate(fs)]])
+    two = wrap(leaf)
+    three = wrap(two.map(lambda d: ["struct", [["m", d], ["t", ["uint", 8, "sat"]]]]))
+    return st.one_of(two, two, three)
+
+
+def _cases(large: bool = False, nested: bool = False) -> st.SearchStrategy:
     specs = st.sampled_from(LARGE_SPECS) if large else gt.composites(gt.small_capacity(), max_leaves=8)
+    if nested:
+        specs = _nested_delimited_specs()
 
     def with_bytes(args: typing.Tuple[typing.Any, str, bool]) -> st.SearchStrategy:
         spec, kind, header = args
@@ -232,10 +276,15 @@ def _cases(large: bool = False) -> st.SearchStrategy:
             elif kind == "inflate":
                 base["extra"] = st.lists(st.tuples(st.integers(0, 1 << 10), st.integers(0, 255)), min_size=1, max_size=8)
                 base["cut"] = st.integers(0, 4096)
+                base["bump"] = st.one_of(st.none(), st.integers(0, 255))
         base["junk"] = st.binary(min_size=1, max_size=12).map(bytes.hex)
+        base["tail"] = st.one_of(st.just(""), st.just(""), st.binary(min_size=1, max_size=12).map(bytes.hex), st.sampled_from(["ff" * 8, "00" * 8, "0100000077"]))
         return st.fixed_dictionaries(base)
 
     kinds = st.sampled_from(["random", "prefix", "prefix", "flip", "flip", "flip", "junk", "ones", "header", "header", "inflate", "inflate"])
+    if nested:
+        kinds = st.sampled_from(["header", "header", "inflate", "inflate", "inflate", "flip", "prefix", "junk"])
+        return st.tuples(specs, kinds, st.sampled_from([True, True, False])).flatmap(with_bytes)
     return st.tuples(specs, kinds, st.booleans()).flatmap(with_bytes)
 
 
@@ -278,7 +327,8 @@ def fuzz_corpus(ctx: Ctx) -> typing.List[bytes]:
 
 
 def parts(ctx: Ctx) -> typing.List[Part]:
-    out = [Part("bytes", _cases(), check_bytes, weight=12), Part("large", _cases(large=True), check_bytes, weight=1, cost=12.0, min_examples=8)]
+    out = [Part("bytes", _cases(), check_bytes, weight=12), Part("nested-delimited", _cases(nested=True), check_bytes, weight=4),
+           Part("large", _cases(large=True), check_bytes, weight=1, cost=12.0, min_examples=8)]
     if ctx.tier != "quick":
         out.append(Part("fuzz-bytes", None, check_bytes, weight=1, fuzz_decode=fuzz_decode, fuzz_corpus=fuzz_corpus))
     return out
